@@ -169,6 +169,13 @@ def run_both(cases, tag, project=None):
     rc_m, out_m, err_m = run_runner(BUILD + '/model_runner', path)
     errs = []
     if rc_i != 0:
+        # the process died (os.Exit or an unrecovered fault) and took the buffered output with it: run every case in
+        # its own child process so that only the responsible case is affected
+        path2 = '%s/scripts/%s_isolated.txt' % (BUILD, tag)
+        write_script(path2, [(cid, (lines if lines and lines[0] == 'mayexit' else ['mayexit'] + list(lines)))
+                             for cid, lines in cases])
+        rc_i, out_i, err_i = run_runner(BUILD + '/impl_runner', path2)
+    if rc_i != 0:
         errs.append('implementation runner exited %d: %s' % (rc_i, err_i[-500:]))
     if rc_m != 0:
         errs.append('model runner exited %d: %s' % (rc_m, err_m[-500:]))
